@@ -465,6 +465,54 @@ func runWire(dir string, seed uint64, tier string) {
 		res.hist(fmt.Sprintf("bytes:%04d", wire.Len()/100*100))
 		res.distinct(fmt.Sprintf("%x", wire.Bytes()))
 	}
+	// ---- the published numbering of the message types (append-only: peers running other builds rely on it) ----
+	published := []struct {
+		name string
+		got  types.MessageType
+		want uint64
+	}{{"NewMessage", types.NewMessage, 0}, {"UpdateMessage", types.UpdateMessage, 1}, {"CancelMessage", types.CancelMessage, 2},
+		{"CompleteMessage", types.CompleteMessage, 3}, {"VoucherMessage", types.VoucherMessage, 4}, {"VoucherResultMessage", types.VoucherResultMessage, 5},
+		{"RestartMessage", types.RestartMessage, 6}, {"RestartExistingChannelRequestMessage", types.RestartExistingChannelRequestMessage, 7}}
+	for _, p := range published {
+		if uint64(p.got) != p.want {
+			fail(0, "message-type-renumbered:"+p.name, "a message type no longer has its published number: peers running other builds read it as another kind", p.name, uint64(p.got), p.want)
+		}
+	}
+	// a voucher request and a voucher-result response as another build writes them (golden bytes) are still read as such
+	for _, g := range []struct {
+		name  string
+		build func() (datatransfer.Message, error)
+		typ   byte
+	}{
+		{"voucher request", func() (datatransfer.Message, error) {
+			return message.VoucherRequest(7, &datatransfer.TypedVoucher{Type: "T1", Voucher: basicnode.NewInt(1)})
+		}, 4},
+		{"voucher-result response", func() (datatransfer.Message, error) {
+			return message.VoucherResultResponse(7, true, false, &datatransfer.TypedVoucher{Type: "R1", Voucher: basicnode.NewInt(1)})
+		}, 5},
+		{"complete response", func() (datatransfer.Message, error) { return message.CompleteResponse(7, true, false, nil) }, 3},
+		{"restart request", func() (datatransfer.Message, error) {
+			return message.NewRequest(7, true, true, &datatransfer.TypedVoucher{Type: "T1", Voucher: basicnode.NewInt(1)}, randCid(r), basicnode.NewInt(2))
+		}, 6},
+	} {
+		m, err := g.build()
+		if err != nil {
+			continue
+		}
+		var b bytes.Buffer
+		if m.ToNet(&b) != nil {
+			continue
+		}
+		// the Type field of the body: key "Type" (0x64 'T' 'y' 'p' 'e') followed by the number
+		i := bytes.Index(b.Bytes(), []byte{0x64, 'T', 'y', 'p', 'e'})
+		if i < 0 || i+5 >= b.Len() || b.Bytes()[i+5] != g.typ {
+			obs := -1
+			if i >= 0 && i+5 < b.Len() {
+				obs = int(b.Bytes()[i+5])
+			}
+			fail(0, "message-type-on-wire:"+g.name, "the Type number written for a "+g.name+" is not the published one", g.name, obs, int(g.typ))
+		}
+	}
 	// ---- arbitrary bytes: the decoders never panic and never yield a message without a body ----
 	nFuzz := 4000
 	if tier == "thorough" {
